@@ -61,6 +61,14 @@ func (x *Exec) input(name, kind string, s Sort) *Term {
 	return t
 }
 
+// inputEnv: nondeterminism of the environment (random ids, parse results):
+// symbolic in the engine, not controllable in a native replay.
+func (x *Exec) inputEnv(name, kind string, s Sort) *Term {
+	t := x.freshVar(name, s)
+	x.inputs = append(x.inputs, &inputRec{Name: name, Kind: kind, Term: t, Env: true})
+	return t
+}
+
 func (x *Exec) strArg(v Value) string {
 	s := v.(*Str)
 	if !s.IsConc() {
@@ -203,6 +211,9 @@ func (x *Exec) vrtCall(g *G, fn *ssa.Function, args []Value) Value {
 	case "vMapOrderNondet":
 		x.mapOrderND = args[0].(*Term).IsTrue()
 		return nil
+	case "vAllowIDCollisions":
+		x.allowIDCollide = args[0].(*Term).IsTrue()
+		return nil
 	case "vNote":
 		x.notes = append(x.notes, x.strArg(args[0]))
 		return nil
@@ -263,6 +274,9 @@ func (x *Exec) advance(d *Term) {
 func (x *Exec) witness(m map[string]uint64) []WitnessEntry {
 	var w []WitnessEntry
 	for _, in := range x.inputs {
+		if in.Env {
+			continue
+		}
 		e := WitnessEntry{Name: in.Name, Kind: in.Kind}
 		switch in.Kind {
 		case "choice":
@@ -304,7 +318,7 @@ func (x *Exec) report(kind, label, msg string, c *Term) {
 	m, r := x.getModel(And(outs...))
 	switch r {
 	case "sat":
-		x.res.Violations = append(x.res.Violations, &Violation{Label: label, Kind: kind, Msg: msg, Where: x.where(), Witness: x.witness(m), Trace: append([]int{}, x.trace...)})
+		x.res.Violations = append(x.res.Violations, &Violation{Label: label, Kind: kind, Msg: msg, Where: x.whereV(), Witness: x.witness(m), Trace: append([]int{}, x.trace...)})
 		reported = true
 	case "unknown":
 		x.res.Unknown++
@@ -313,7 +327,7 @@ func (x *Exec) report(kind, label, msg string, c *Term) {
 	for _, k := range x.known {
 		m, r := x.getModel(And(neg, k.cond))
 		if r == "sat" {
-			x.res.Violations = append(x.res.Violations, &Violation{Label: label, Kind: kind, Msg: msg, Where: x.where(), Witness: x.witness(m), Trace: append([]int{}, x.trace...), Known: k.id})
+			x.res.Violations = append(x.res.Violations, &Violation{Label: label, Kind: kind, Msg: msg, Where: x.whereV(), Witness: x.witness(m), Trace: append([]int{}, x.trace...), Known: k.id})
 			reported = true
 		} else if r == "unknown" {
 			x.res.Unknown++
@@ -322,6 +336,13 @@ func (x *Exec) report(kind, label, msg string, c *Term) {
 	if !reported && r == "unsat" {
 		x.res.AssertUnsat++
 	}
+}
+
+func (x *Exec) whereV() string {
+	if x.panicWhere != "" {
+		return x.panicWhere
+	}
+	return x.where()
 }
 
 func (x *Exec) assertion(label string, c *Term) {
@@ -359,7 +380,9 @@ func (x *Exec) cover(label string) {
 
 func (x *Exec) onUncaughtPanic(g *G, p *PanicV) {
 	x.cur = g
+	x.panicWhere = p.Where
 	x.report("panic", "no-panic", fmt.Sprintf("%s [goroutine %d %s] at %s", p.Msg, g.id, g.name, p.Where), nil)
+	x.panicWhere = ""
 	x.end("ok", "path ended by uncaught panic")
 }
 
